@@ -300,6 +300,60 @@ def nested_functionals(ctx):
     return n
 
 
+def held_operator(ctx):
+    """an EditableModule that holds a LinearOperator (itself an EditableModule) and whose method calls xitorch.linalg.solve with it:
+    the operator's tensor is an object parameter of the OUTER function, reached through the path 'op.<name>'"""
+    import xitorch.linalg
+    from xitorch import LinearOperator
+    DT = torch.float64
+
+    class HoldsOp(xitorch.EditableModule):
+        def __init__(self, W, c):
+            self.op = LinearOperator.m((W + W.T) / 2 + 3 * torch.eye(3, dtype=DT), is_hermitian=True)
+            self.c = c
+
+        def f(self, y):
+            return y - xitorch.linalg.solve(self.op, (torch.tanh(y) + self.c).unsqueeze(-1), method="cg", rtol=1e-13, atol=1e-15).squeeze(-1)
+
+        def getparamnames(self, methodname, prefix=""):
+            return self.op.getparamnames("mm", prefix=prefix + "op.") + [prefix + "c"]
+    n = 0
+    g_ = torch.Generator().manual_seed(77 + ctx.seed)
+    with warnings.catch_warnings():
+        warnings.simplefilter("ignore")
+        for cg in (False, True):
+            n += 1
+            ctx.case(key=("held-operator", cg))
+            why = None
+            try:
+                W = (torch.randn(3, 3, generator=g_, dtype=DT) * 0.3).requires_grad_()
+                c = (torch.randn(3, generator=g_, dtype=DT) * 0.5).requires_grad_()
+                m = HoldsOp(W, c)
+                mat0 = m.op.mat
+                y = xitorch.optimize.rootfinder(m.f, torch.zeros(3, dtype=DT), f_tol=1e-13, x_tol=1e-13)
+                g = torch.autograd.grad((y ** 2).sum(), [W, c], create_graph=cg, retain_graph=True)
+                W2, c2 = W.detach().clone().requires_grad_(), c.detach().clone().requires_grad_()
+                A = (W2 + W2.T) / 2 + 3 * torch.eye(3, dtype=DT)
+                yy = y.detach().clone()
+                for _ in range(200):
+                    yy = torch.linalg.solve(A, torch.tanh(yy) + c2)
+                gr = torch.autograd.grad((yy ** 2).sum(), [W2, c2], create_graph=cg)
+                if not (m.op.mat is mat0 and m.c is c):
+                    why = "the object (or the operator it holds) does not hold its original tensors afterwards"
+                elif not all(torch.allclose(a, b, atol=1e-9, rtol=1e-8) for a, b in zip(g, gr)):
+                    why = "gradient differs from the unrolled dense fixed-point iteration by %.2e" % max(float((a - b).abs().max()) for a, b in zip(g, gr))
+                elif cg:
+                    h = torch.autograd.grad(sum((x ** 2).sum() for x in g), [W, c])
+                    hr = torch.autograd.grad(sum((x ** 2).sum() for x in gr), [W2, c2])
+                    if not all(torch.allclose(a, b, atol=1e-7, rtol=1e-6) for a, b in zip(h, hr)):
+                        why = "second-order gradient differs from the reference by %.2e" % max(float((a - b).abs().max()) for a, b in zip(h, hr))
+            except Exception as e:
+                why = "raised %s: %s" % (type(e).__name__, str(e)[:140])
+            if why:
+                ctx.violation("repr/held-operator", "rootfinder on a method that solves with a LinearOperator held by the object (backward %s graph recording): %s" % ("with" if cg else "without", why), {"cg": cg})
+    return n
+
+
 def run(ctx):
     thorough = ctx.tier == "thorough"
     torch.manual_seed(ctx.seed)
@@ -322,6 +376,7 @@ def run(ctx):
     nk = fnkinds(ctx)
     nk += library_objects(ctx)
     nk += nested_functionals(ctx)
+    nk += held_operator(ctx)
     ctx.replayed = nk
     # 2. every functional on every representation, protocol validated by TLC, numeric verdicts in the final event
     traces = []
